@@ -217,6 +217,7 @@ func init() {
 			{Pkg: "amf0", Func: "HarnessC07_Amf0", Stall: true, Labels: []string{"c07-amf0", "c07-amf0-accepted"}, Bound: "every byte string of 0..10 bytes (thorough 0..13) through Discovery+UnmarshalBinary and through each concrete type's decoder"},
 			{Pkg: "amf0", Func: "HarnessC07_Amf0Enums", Labels: []string{"c07-amf0-enums"}, Bound: "marker.String() over all 256 values"},
 			{Pkg: "rtmp", Func: "HarnessC07_Chunks", Stall: true, Labels: []string{"c07-chunks"}, Bound: "ReadMessage until error over every byte string of 0..12 bytes (thorough 0..16), input chunk size default 128 or symbolic 1..4"},
+			{Pkg: "rtmp", Func: "HarnessC07_ChunkStep", Stall: true, Labels: []string{"c07-chunkstep", "c07-chunkstep-message"}, Bound: "one chunk (header type forked, 0..18 arbitrary bytes, chunk size symbolic 1..4) from an arbitrary valid chunk-stream state: fresh / idle with symbolic inherited fields / message of 2..6 bytes partially received"},
 			{Pkg: "rtmp", Func: "HarnessC07_Decode", Stall: true, Labels: []string{"c07-decode", "c07-decode-accepted"}, Bound: "DecodeMessage with symbolic type and payload of 0..10 bytes (thorough 0..13), with and without outstanding requests"},
 			{Pkg: "rtmp", Func: "HarnessC07_Packets", Stall: true, Labels: []string{"c07-packets", "c07-packets-accepted"}, Bound: "UnmarshalBinary of each of the 12 packet kinds on 0..10 arbitrary bytes"},
 			{Pkg: "flv", Func: "HarnessC07_FlvDemux", Stall: true, Labels: []string{"c07-flv-demux", "c07-flv-tag"}, Bound: "0..16 (thorough 0..24) arbitrary bytes, alone or after a well-formed header; tag sizes > 40 only for 41, 65536, 2^24-1"},
